@@ -7,7 +7,7 @@ CONSTANTS
   CallocShapes <- ShapesPool4
   SrcOffsets = {0}
   HugeSizes <- HugeAll
-  Levels = {5}
+  Levels = {0, 5}
   Obs <- ObsEmit
 INVARIANTS TypeOK TableIsLiveSet UnknownPointerNoChange ReallocNullAllocates ReallocZeroFrees ReallocKeepsOthers RefusedChangesNothing
 PROPERTY LevelConstant
